@@ -35,6 +35,7 @@ import PV.C04.ProgLift
 
   Where the code is laxer than CPython the CODE is mirrored and the witness given (`bare_star_then_kwargs_accepted`).
 -/
+set_option linter.unusedVariables false
 namespace PV.C04.PR
 open PV.Expr PV.C11 PV.Prog
 
@@ -151,6 +152,14 @@ theorem paren_lone_star_rejected :
 theorem as_underscore_rejected (ts X r : List Tok) (p : Pattern) (t : Tok) (f0 : Nat) (site : CaseSite ts X)
     (h : parseOrPattern f0 X = some (p, t :: .name [95] :: r)) (ht : tk t = .hk .as) : RejectedT ts :=
   caseSite_rejected site (pattern_as_underscore_rejects h ht)
+
+/-- **C04 / `as _` anywhere in the pattern of a `case`** — element of a sequence / class / group / or-pattern, at any
+    depth of the pattern (and of the program): the tokens `P` between the `case` token and the `as` contain no `if` / `:` -/
+theorem as_underscore_nested_rejected (ts X P rest : List Tok) (t : Tok) (site : CaseSite ts X)
+    (hX : X = P ++ t :: .name [95] :: rest) (ht : tk t = .hk .as) (hP : ∀ h ∈ P, h ≠ .kw .if ∧ h ≠ .op .colon) :
+    RejectedT ts := by
+  obtain ⟨pre, c, hts, hc⟩ := site
+  exact fun mode fuel => case_context hts hc (as_underscore_in_pattern_rejects hX ht hP) mode fuel
 
 /-! ## the acceptance converse: the validation is the ONLY reason -/
 
@@ -359,6 +368,19 @@ theorem exAsUnderscore_rejected : RejectedT (exAsUnderscore.map PTok.toTok) := b
   · rfl
 example : parseProgram .module exAsUnderscore = none := (exAsUnderscore_rejected.program .module).1
 example : parseProgram .module exAsUnderscore = none := by rfl
+/-- `match s:⏎  case [A(k=(x as _)), z]:⏎    pass⏎` — nested in a group, a keyword pattern, a class pattern, a sequence -/
+def exAsUnderscoreNested : List PTok :=
+  [kwT .match, nmT 115, opT .colon, .newline, .indent, kwT .case, opT .lsqb, nmT 65, opT .lpar, nmT 107, opT .assign, opT .lpar,
+   nmT 120, kwT .as, nmT 95, opT .rpar, opT .rpar, opT .comma, nmT 122, opT .rsqb, opT .colon, .newline, .indent,
+   kwT .pass, .newline, .dedent, .dedent]
+
+theorem exAsUnderscoreNested_rejected : RejectedT (exAsUnderscoreNested.map PTok.toTok) := by
+  apply as_underscore_nested_rejected _ _ [.op .lsqb, .name [65], .op .lpar, .name [107], .op .assign, .op .lpar, .name [120]]
+    _ HK.as.tok ⟨[HK.match.tok, .name [115], .op .colon, tNewline, tIndent], HK.case.tok, rfl, rfl⟩ rfl rfl
+  decide
+example : parseProgram .module exAsUnderscoreNested = none := (exAsUnderscoreNested_rejected.program .module).1
+example : parseProgram .module exAsUnderscoreNested = none := by rfl
+
 /-- … while `case x as y` is accepted -/
 example : (parseProgram .module
     [kwT .match, nmT 115, opT .colon, .newline, .indent, kwT .case, nmT 120, kwT .as, nmT 121, opT .colon, .newline, .indent,
